@@ -192,8 +192,81 @@ impl Sub for Product {
     }
 }
 
+/// The inverse transform on structured transform-domain vectors (block patterns of extreme
+/// values): since the forward transform is a bijection, intt(ntt(a)) = a for all a is equivalent
+/// to ntt(intt(F)) = F for all F, and extreme spectra are where lazy reductions would overflow.
+#[derive(Clone, Debug, Serialize, Deserialize)]
+pub struct SpectrumCase {
+    f: Vec<i16>,
+}
+
+pub struct Spectrum;
+
+impl Sub for Spectrum {
+    type Case = SpectrumCase;
+    fn name(&self) -> &'static str {
+        "ntt_spectrum"
+    }
+    fn strategy(&self, _env: &Env) -> BoxedStrategy<SpectrumCase> {
+        let q = Q as i16;
+        (0u32..=10)
+            .prop_flat_map(move |l| {
+                let n = 1usize << l;
+                let extreme = prop_oneof![3 => Just(0i16), 3 => Just(q - 1), 1 => Just(1i16), 1 => Just(6144i16), 1 => Just(6145i16), 1 => 0i16..q];
+                let blocks = (0..=l, proptest::collection::vec(extreme.clone(), n)).prop_map(move |(j, vals)| {
+                    let b = 1usize << j;
+                    (0..n).map(|i| vals[i / b]).collect::<Vec<i16>>()
+                });
+                let two_valued = proptest::collection::vec(prop_oneof![Just(0i16), Just(q - 1)], n);
+                let half_waves = (0..=l, any::<bool>(), extreme.clone(), extreme).prop_map(move |(j, phase, a, b)| {
+                    let h = 1usize << j;
+                    (0..n).map(|i| if ((i / h) % 2 == 0) == phase { a } else { b }).collect::<Vec<i16>>()
+                });
+                prop_oneof![3 => blocks, 2 => two_valued, 3 => half_waves, 1 => proptest::collection::vec(0i16..q, n)]
+            })
+            .prop_map(|f| SpectrumCase { f })
+            .boxed()
+    }
+    fn check(&self, c: &SpectrumCase, st: &mut Stats) -> Result<(), Fail> {
+        let n = c.f.len();
+        if n == 0 || !n.is_power_of_two() || n > 1024 || c.f.iter().any(|&x| x < 0 || x as i64 >= Q) {
+            return Ok(());
+        }
+        let a = intt(&c.f);
+        ensure!(a.len() == n && a.iter().all(|&x| (0..Q as i16).contains(&x)), "ntt:range", "n = {}: inverse transform output outside [0,q)", n);
+        let back = ntt(&a);
+        let pos = back.iter().zip(c.f.iter()).position(|(x, y)| x != y);
+        ensure!(pos.is_none(), "ntt:inverse-on-spectrum", "n = {}: ntt(intt(F)) differs from F at slot {}", n, pos.unwrap_or(0));
+        if n <= 256 {
+            // independent interpolation: a_i = n^-1 sum_k F_k r_k^-i with r_k = ntt(X)[k]
+            let mut x = vec![0i16; n];
+            if n > 1 {
+                x[1] = 1;
+            } else {
+                x[0] = 1;
+            }
+            let roots = to_i64(&ntt(&x));
+            let ninv = invq(n as i64);
+            for i in (0..n).step_by((n / 16).max(1)) {
+                let mut acc = 0i64;
+                for k in 0..n {
+                    let r = if n > 1 { invq(powq(roots[k], i as u64)) } else { 1 };
+                    acc = (acc + c.f[k] as i64 * r) % Q;
+                }
+                ensure!(modq(acc * ninv) == a[i] as i64, "ntt:inverse-value", "n = {}: intt(F)[{}] = {} but interpolation gives {}", n, i, a[i], modq(acc * ninv));
+            }
+        }
+        if n >= 2 && c.f.iter().any(|&x| x != 0) {
+            st.nontrivial(&c.f);
+        }
+        st.count(&format!("spectra_n{}", n));
+        st.sample("spectrum", || json!({"n": n, "f_head": c.f.iter().take(8).collect::<Vec<_>>()}));
+        Ok(())
+    }
+}
+
 const META: Meta = Meta {
-    rule: "complete enumeration of both 1024-entry twiddle tables against psi^(+-bitrev10(i)) with psi := table[512] (checked to satisfy psi^1024 = -1), of the eleven stored n^-1 constants, and of all 2047 basis vectors X^i for n = 1..1024 (ntt(X^i)[k] = r_k^i with r_k = ntt(X)[k], r_k^n = -1, r_k pairwise distinct; round trip); proptest operand pairs for n = 1..1024 (uniform, sparse, monomial, constant q-1, edge residues) compared with the schoolbook negacyclic product in i64, plus split/merge identities. Non-trivial = n >= 2 and both operands non-zero (hash-distinct); enumerated items are distinct by construction.",
+    rule: "complete enumeration of both 1024-entry twiddle tables against psi^(+-bitrev10(i)) with psi := table[512] (checked to satisfy psi^1024 = -1), of the eleven stored n^-1 constants, and of all 2047 basis vectors X^i for n = 1..1024 (ntt(X^i)[k] = r_k^i with r_k = ntt(X)[k], r_k^n = -1, r_k pairwise distinct; round trip); proptest operand pairs for n = 1..1024 (uniform, sparse, monomial, constant q-1, edge residues) compared with the schoolbook negacyclic product in i64, plus split/merge identities; structured transform-domain vectors (aligned blocks and half-waves of 0, q-1 and other extreme residues, two-valued patterns) through the inverse transform, checked by ntt(intt(F)) = F and an independent interpolation. Non-trivial = n >= 2 and both operands non-zero (hash-distinct); enumerated items are distinct by construction.",
     assumptions: &[
         "oracle: refimpl::zq schoolbook product and modular exponentiation",
         "the hook wrappers convert canonical residues without reducing them",
@@ -203,7 +276,7 @@ const META: Meta = Meta {
 pub fn run(env: &Env, replay: Option<&Path>) -> i32 {
     let mut report = Report::new();
     let tables = Tables::new();
-    let subs: [&dyn DynSub; 3] = [&tables, &Basis, &Product];
+    let subs: [&dyn DynSub; 4] = [&tables, &Basis, &Product, &Spectrum];
     if let Some(p) = replay {
         if let Err(e) = replay_file(env, &subs, p, &mut report) {
             eprintln!("harness: {}", e);
@@ -218,5 +291,6 @@ pub fn run(env: &Env, replay: Option<&Path>) -> i32 {
     drive_enumerated(env, &Basis, b, &mut report);
     report.notes.push("tables, n^-1 constants and basis vectors are enumerated completely; operand pairs are sampled, so exhaustive stays false for the property as a whole".into());
     drive(env, &Product, env.tier.pick(100_000, 1_000_000), &mut report);
+    drive(env, &Spectrum, env.tier.pick(100_000, 1_000_000), &mut report);
     finish(env, report, &META)
 }
